@@ -17,9 +17,15 @@ func thorough() bool { return os.Getenv("VERIF_TIER") == "thorough" }
 // checkFile is the common driver for properties over generated file programs.
 func checkFile(t *testing.T, prop string, gen func(rt *rapid.T) *harness.Program, run func(p *harness.Program) Result) {
 	rec := harness.NewRecorder(prop, "file")
-	FilterKnown = true
 	completed := false
 	defer func() { rec.Flush(completed) }()
+	checkFileRec(t, rec, prop, gen, run)
+	completed = true
+}
+
+func checkFileRec(t *testing.T, rec *harness.Recorder, prop string, gen func(rt *rapid.T) *harness.Program, run func(p *harness.Program) Result) {
+	FilterKnown = true
+	rec.SetKind("file")
 	rapid.Check(t, func(rt *rapid.T) {
 		p := gen(rt)
 		res := Guard(func() Result { return run(p) })
@@ -35,7 +41,6 @@ func checkFile(t *testing.T, prop string, gen func(rt *rapid.T) *harness.Program
 			rt.Fatalf("%s violated: %v", prop, res.V)
 		}
 	})
-	completed = true
 }
 
 // TestReplay executes the case stored in the file named by VERIF_REPLAY.
